@@ -2,9 +2,13 @@ use std::collections::HashMap;
 use std::fs;
 use std::io;
 use std::path::{Path, PathBuf};
-use std::sync::{Arc, Mutex};
+use std::sync::Arc;
+#[cfg(not(feature = "verif"))]
+use std::sync::Mutex;
 use std::time::{SystemTime, UNIX_EPOCH};
 
+#[cfg(feature = "verif")]
+use rip_kernel::verif::sync::Mutex;
 use rip_kernel::{CompactionPlannedCutPoint, Event, EventKind, StreamKind};
 use rip_log::EventLog;
 use serde::{Deserialize, Serialize};
